@@ -480,6 +480,22 @@ impl QClass {
 }
 
 /// One in-range query (always inside [x0, xn], exactly representable in T).
+/// A batch that looks like the axis: exactly n points, q[i] == x[i] except at a random subset of positions, which hold
+/// other in-range points; first / middle / last position keep the knot in half of the cases each.
+pub fn axis_like_batch<T: Flt>(src: &mut Src, x: &[f64]) -> Vec<(f64, QClass)> {
+    let n = x.len();
+    let dense = src.bool();
+    let keep = [src.bool(), src.bool(), src.bool()];
+    let mut out: Vec<(f64, QClass)> = x.iter().map(|&v| (v, QClass::Knot)).collect();
+    for i in 0..n {
+        let pinned = (i == 0 && keep[0]) || (i == n / 2 && keep[1]) || (i == n - 1 && keep[2]);
+        if !pinned && src.chance(1, if dense { 2 } else { 4 }) {
+            out[i] = query_in_range::<T>(src, x);
+        }
+    }
+    out
+}
+
 pub fn query_in_range<T: Flt>(src: &mut Src, x: &[f64]) -> (f64, QClass) {
     let n = x.len();
     let class = match src.weighted(&[3, 2, 2, 1, 1, 2, 2, 4, 2]) {
